@@ -553,11 +553,14 @@ func runConsistency(r *core.Run, faulty bool) {
 		defer w.close()
 		nops := r.Range("ops", 6, 40)
 		for i := 0; i < nops && !r.Failed(); i++ {
-			n := 10
+			n := 12
 			if faulty {
-				n = 14
+				n = 15
 			}
 			op := r.Choice("op", n)
+			if !faulty && op >= 10 {
+				op = 13 // burst
+			}
 			switch {
 			case op < 5:
 				w.doQuery(ctx, w.genQuery())
@@ -585,7 +588,8 @@ func runConsistency(r *core.Run, faulty bool) {
 				w.partitionLeft = 1 + r.Choice("partition.n", 3)
 				r.Logf("partition for %v / %d fetches", d, w.partitionLeft)
 			default:
-				w.doQuery(ctx, w.genQuery())
+				// 2-3 requests to one slow-side control service in flight at the same time
+				w.burst(ctx)
 			}
 		}
 		r.SimNS = int64(time.Since(w.start))
